@@ -17,7 +17,7 @@ P_impl       (i) the real converters on the spelling of a structured literal giv
              (ii) truncateIntValue = two's complement wrap; (iii) the reported known value of a constant expression = value of
              the C abstract machine for the platform (python reference evaluator).  The thorough tier validates the SPEC side
              (Lean literal values, reference evaluator, reference data models) against clang-14 static_assert probes / target macros.
-Findings     known_findings.d/C10.json (F5, F10b, F10c; fixed: F10d a4b8285, F10e 731a3b3, F10f bed3bd1); witnesses in corpus/C10/cases.json
+Findings     known_findings.d/C10.json (F5, F10b, F10c; fixed: F10d a4b8285, F10e 731a3b3, F10f bed3bd1, F10g 3fa1f26); witnesses in corpus/C10/cases.json
 """
 import os, re, json, glob, subprocess
 import xml.etree.ElementTree as ET
@@ -908,11 +908,6 @@ def classify_cli(P, e, reported):
                 return "fold-mixed-sign-left-signed"
     if e["kind"] == "K" and e.get("neg") and e["lty"][1] and reported == conv(P, e["ty"], -e["v"]):
         return "fold-unary-minus-unsigned"        # unary minus on an unsigned operand is not reduced to the operand's type
-    if (e["kind"] == "C" and e.get("detail") == "char1:high" and P.char_unsigned and reported == e["expect"] - 256
-            and re.match(r"^'\\[1-7][0-7]*'$", e["src"])):
-        # F10g: replaceEscapeSequences folds only octal escapes starting with 0, Token::isCChar() is false for '\\200',
-        # so the platform-sign adjustment of 731a3b3 is not applied
-        return "charlit-octal-escape-not-cchar"
     return None
 
 
